@@ -24,7 +24,7 @@ def run(ctx):
         # convoys: many producers queue for seconds behind handlers that take 100 ms each
         for k in range(ctx.pick(2, 40)):
             hists.append({"mode": "c02", "target": "logger" if k % 2 == 0 else "bare", "producers": rnd.choice([36, 48, 64]), "msgs": 2, "sink": 5,
-                          "noise": "0:0:0:0:", "cores": 0, "seed": rnd.randint(1, 10 ** 9), "burst": 0, "flavour": "plain"})
+                          "noise": "0:0:0:0:", "cores": 0, "seed": rnd.randint(1, 10 ** 9), "burst": 0, "flavour": "plain", "switches": 0})
     results = conc.run_all(ctx, hists)
     fps = set()
     totals = {"messages": 0, "switches": 0, "handovers": 0, "tsan_reports": 0, "tsan_env_noise": 0, "max_run": 0, "trivial": 0}
@@ -33,7 +33,7 @@ def run(ctx):
     evals = 0
     slow = 0
     for h, r in zip(hists, results):
-        key_ctx = {k: h[k] for k in ("target", "producers", "msgs", "sink", "noise", "cores", "flavour")}
+        key_ctx = {k: h.get(k) for k in ("target", "producers", "msgs", "sink", "noise", "cores", "flavour", "switches")}
         if r["rc"] == "slow":
             slow += 1          # cut off by the wall-clock watchdog while still making progress: inconclusive for this history
             continue
@@ -59,6 +59,8 @@ def run(ctx):
         for k in ("messages", "switches", "handovers"):
             totals[k] += st.get(k, 0)
         totals["max_run"] = max(totals["max_run"], st.get("max_run", 0))
+        if h.get("switches"):
+            totals["histories_with_mode_switches"] = totals.get("histories_with_mode_switches", 0) + 1
         if st.get("switches", 0) == 0:
             totals["trivial"] += 1
         else:
@@ -70,7 +72,8 @@ def run(ctx):
         "distinct_nontrivial": len(fps),
         "rule": "one history = N producers (2..64) x M messages through the synchronous Logger (Qt message handler) or a bare "
                 "OwnThreadHandler<Pipeline>, with a noise profile at the guarded hook points, a sink-duration profile and a CPU-affinity "
-                "restriction; non-trivial = the observed serial order switches between producers at least once; distinct by "
+                "restriction, and in a share of the histories a switcher thread that moves the logger to its own thread and back while the producers "
+                "log; non-trivial = the observed serial order switches between producers at least once; distinct by "
                 "(target, producers, fingerprint of the producer sequence along the serial order)",
         "samples": samples,
         "totals": totals,
